@@ -68,6 +68,7 @@ DoCall(c) ==
     [] op = "ActionLog"    -> IF CanActionLog(c, Ev.a) THEN ActionLog(c, Ev.a, Ev.ty) ELSE FALSE
     [] op = "AddSuccess"   -> AddSuccess(c, Ev.a, Ev.f)
     [] op = "RawWrite"     -> RawWrite(c)
+    [] op = "StdlibLog"    -> IF CanLog(c) THEN StdlibLog(c, Ev.withexc) ELSE FALSE
     [] op = "LogCall"      -> IF CanLogCall(c) THEN LogCall(c, Ev.o) ELSE FALSE
     [] op = "WriteTraceback" -> IF CanLog(c) THEN WriteTraceback(c, Ev.o) ELSE FALSE
     [] op = "Register"     -> Register(c, Ev.k)
@@ -87,7 +88,7 @@ WellFormedCall(c) ==
        [] op = "Enter" -> CanEnter(c, Ev.kind, Ev.a)
        [] op = "Exit" -> CanExit(c) /\ Last(blocks[c]).kind = Ev.kind
        [] op = "Finish" -> CanFinish(c, Ev.a)
-       [] op \in {"Log", "WriteTraceback", "LogCall"} -> CanLog(c)
+       [] op \in {"Log", "WriteTraceback", "LogCall", "StdlibLog"} -> CanLog(c)
        [] op = "ActionLog" -> CanActionLog(c, Ev.a)
        [] op = "SerializeId" -> CanSerializeId(c)
        [] op = "ContinueTask" -> CanContinue(c, Ev.i)
